@@ -124,11 +124,11 @@ where
         true => {
             let iterator =
                 all_pairs_par_iter(graph, weighted, target, cutoff, first_only, with_paths);
-            iterator.collect::<Vec<(usize, Vec<(usize, ShortestPathInfo<usize>)>)>>()
+            iterator.collect::<Result<Vec<(usize, Vec<(usize, ShortestPathInfo<usize>)>)>, Error>>()?
         }
         false => {
             let iterator = all_pairs_iter(graph, weighted, target, cutoff, first_only, with_paths);
-            iterator.collect::<Vec<(usize, Vec<(usize, ShortestPathInfo<usize>)>)>>()
+            iterator.collect::<Result<Vec<(usize, Vec<(usize, ShortestPathInfo<usize>)>)>, Error>>()?
         }
     };
     let x = shortest_paths_vecs
@@ -149,7 +149,7 @@ fn all_pairs_iter<'a, T, A>(
     cutoff: Option<f64>,
     first_only: bool,
     with_paths: bool,
-) -> impl Iterator<Item = (usize, Vec<(usize, ShortestPathInfo<usize>)>)> + 'a
+) -> impl Iterator<Item = Result<(usize, Vec<(usize, ShortestPathInfo<usize>)>), Error>> + 'a
 where
     T: Hash + Eq + Clone + Ord + Display + Send + Sync,
     A: Clone + Send + Sync,
@@ -173,9 +173,8 @@ where
                     first_only,
                     with_paths,
                 ),
-            }
-            .unwrap();
-            (node_index, ss_index)
+            }?;
+            Ok((node_index, ss_index))
         });
     x
 }
@@ -189,7 +188,7 @@ pub(crate) fn all_pairs_par_iter<'a, T, A>(
     with_paths: bool,
 ) -> rayon::iter::Map<
     rayon::vec::IntoIter<usize>,
-    impl Fn(usize) -> (usize, Vec<(usize, ShortestPathInfo<usize>)>) + 'a,
+    impl Fn(usize) -> Result<(usize, Vec<(usize, ShortestPathInfo<usize>)>), Error> + 'a,
 >
 where
     T: Hash + Eq + Clone + Ord + Display + Send + Sync + 'a,
@@ -214,9 +213,8 @@ where
                     first_only,
                     with_paths,
                 ),
-            }
-            .unwrap();
-            (node_index, ss_index)
+            }?;
+            Ok((node_index, ss_index))
         });
     x
 }
@@ -365,11 +363,11 @@ where
         });
     }
 
-    let shortest_paths: Vec<(T, HashMap<T, ShortestPathInfo<T>>)> = match parallel {
+    let shortest_paths: Result<Vec<(T, HashMap<T, ShortestPathInfo<T>>)>, Error> = match parallel {
         true => sources
             .into_par_iter()
             .map(|source| {
-                (
+                Ok((
                     source.clone(),
                     single_source(
                         graph,
@@ -379,15 +377,14 @@ where
                         cutoff,
                         first_only,
                         with_paths,
-                    )
-                    .unwrap(),
-                )
+                    )?,
+                ))
             })
             .collect(),
         false => sources
             .into_iter()
             .map(|source| {
-                (
+                Ok((
                     source.clone(),
                     single_source(
                         graph,
@@ -397,13 +394,12 @@ where
                         cutoff,
                         first_only,
                         with_paths,
-                    )
-                    .unwrap(),
-                )
+                    )?,
+                ))
             })
             .collect(),
     };
-    Ok(shortest_paths.into_iter().collect())
+    Ok(shortest_paths?.into_iter().collect())
 }
 
 fn dijkstra<T, A>(
